@@ -21,7 +21,7 @@ func init() {
 		Assumptions: []string{"domain as stated: i inside the bitmap, i <= end <= 64*len, end >= 1 for PrevOne"},
 		Flavours:    releaseAnd386,
 		Required: []string{"next/in-first-word", "next/after-skipped-zero-words", "next/next-word", "next/none", "next/found-but-beyond-end", "range/empty", "range/i-aligned", "range/end-aligned",
-			"prev/in-last-word", "prev/after-skipped-zero-words", "prev/prev-word", "prev/none", "prev/found-but-before-i", "bitmap>=500-words", "bitmap>=65536-words", "bitmap=2^31-64-bits"},
+			"prev/in-last-word", "prev/after-skipped-zero-words", "prev/prev-word", "prev/none", "prev/found-but-before-i", "bitmap>=500-words", "bitmap>=65536-words", "bitmap=2^31-64-bits", "arguments-in-read-only-memory"},
 		Families: func(c *mon.Config) []mon.Family {
 			return []mon.Family{
 				{Name: "cold-start", N: 1, Serial: true, Run: func(w *mon.W, _ int) {
@@ -144,13 +144,28 @@ func c13One(w *mon.W, bm []uint64, t *c13Tab, i, end int, cov *c13Cov) bool {
 	return true
 }
 
-func c13All(w *mon.W, bm []uint64) bool {
-	bm, guard := argW(w, bm)
-	defer func() {
+// c13Arg places the bitmap where the queries will read it: in the worker's reused, poisoned argument buffer or, for
+// every third case, in a read-only mapping (ro.go).
+func c13Arg(w *mon.W, bm []uint64) ([]uint64, func()) {
+	if w.Idx()%3 == 1 {
+		roReset(w)
+		v := roWords(w, bm)
+		if release, ok := roSeal(w); ok {
+			w.Bucket("arguments-in-read-only-memory")
+			return v, release
+		}
+	}
+	v, guard := argW(w, bm)
+	return v, func() {
 		if !guard() {
 			w.Fail("NextPrev/wrote-outside-len-of-argument", mon.D{"nwords": len(bm)})
 		}
-	}()
+	}
+}
+
+func c13All(w *mon.W, bm []uint64) bool {
+	bm, done := c13Arg(w, bm)
+	defer done()
 	orig := cloneWords(bm)
 	t := c13Tables(orig)
 	n := 64 * len(bm)
@@ -237,12 +252,8 @@ func c13Long(w *mon.W, idx int) {
 			}
 		}
 	}
-	bm, guard := argW(w, bm)
-	defer func() {
-		if !guard() {
-			w.Fail("NextPrev/wrote-outside-len-of-argument", mon.D{"nwords": len(bm)})
-		}
-	}()
+	bm, done := c13Arg(w, bm)
+	defer done()
 	orig := cloneWords(bm)
 	t := c13Tables(orig)
 	n := 64 * nw
